@@ -46,7 +46,7 @@ def alphabet(fam):
     if fam == 'ET':
         a += ['read_sensor:work_mode', 'read_sensor:battery_modules', 'read_setting:battery_modules',
               'dev:battery-off', 'dev:battery-on', 'dev:refuse-mppt', 'dev:refuse-meter-ext2', 'dev:refuse-battery']
-    a += ['dev:lose-next-request', 'env:neighbour', 'env:keep-alive-on', 'env:slow-device']
+    a += ['dev:lose-next-request', 'env:neighbour', 'env:keep-alive-on', 'env:slow-device', 'env:new-loop']
     if fam != 'ES':
         a += ['dev:reject-next:3', 'dev:reject-next:6']
     return a
@@ -111,6 +111,10 @@ def do(r, cfg, name):
     if name == 'env:keep-alive-on':
         inv.set_keep_alive(True)
         return None
+    if name == 'env:new-loop':
+        r.newloop()                # the calls so far ran in one asyncio.run(), the following ones run in the next
+        r.loops = getattr(r, 'loops', 0) + 1
+        return None
     if name == 'env:slow-device':
         dev.latency = 0.6          # of the timeout (1): two requests of one call together last longer than one timeout
         return None
@@ -162,7 +166,7 @@ def state_of(r):
               getattr(inv._protocol, '_retry', 0), inv._consecutive_failures_count,
               tuple(sorted(getattr(dev, 'drop_at', ())) and [1]),
               tuple(sorted((k - len(dev.log), v) for k, v in getattr(dev, 'reject_at', {}).items())),
-              min(getattr(r, 'neighbours', 0), 1), getattr(dev, 'latency', None)))
+              min(getattr(r, 'neighbours', 0), 1), getattr(dev, 'latency', None), min(getattr(r, 'loops', 0), 1)))
 
 
 def probes(r, cfg):
